@@ -183,6 +183,13 @@ func handleJOIN(c *Client, e Event) {
 	channel.addUser(user.Nick)
 	user.addChannel(channel.Name)
 
+	// account-tag (ircv3): handleTags ran before the user existed.
+	if len(e.Tags) > 0 {
+		if account, ok := e.Tags.Get("account"); ok {
+			user.Extras.Account = account
+		}
+	}
+
 	// Assume extended-join (ircv3).
 	if len(e.Params) >= 2 {
 		if e.Params[1] != "*" {
